@@ -130,6 +130,7 @@ def meta_conf(case, rid, registry):
             "  distanceZ {", "    main { atomNumbers 1 }", "    ref { dummyAtom (0,0,0) }", "    axis (0,0,1)", "  }", "}",
             "metadynamics {", "  name m", "  colvars v0", "  hillWeight 1", "  gaussianSigmas %r" % SIGMA,
             "  newHillFrequency %d" % case["hillfreq"]] + (["  useGrids on", "  writeFreeEnergyFile off"] if case.get("grids", True) else ["  useGrids off"]) + [
+          ] + (["  stepZeroData on"] if case.get("szd") else []) + [
             "  multipleReplicas on", "  replicaID %s" % rid, "  replicasRegistry %s" % registry,
             "  replicaUpdateFrequency %d" % case["upfreq"], "}"]
 
